@@ -66,6 +66,47 @@ func c13GenRelayConsts(s *src, o *out) {
 		die("relay.go: function resetToStandby not found")
 	}
 	o.raw("Definition relay_reset_guarded : bool := %v.\n", guarded)
+	// where "handshaking" is published: by the output reader, in front of `go r.handshake()`
+	// (hence in front of the forward of the trigger), and/or as the first statement of the worker
+	byReader, byWorker := false, false
+	isStore := func(n ast.Node) bool {
+		call, ok := n.(*ast.CallExpr)
+		if !ok {
+			return false
+		}
+		sel, ok := call.Fun.(*ast.SelectorExpr)
+		return ok && sel.Sel.Name == "Store" && c13Field(sel.X) == "relayStatus"
+	}
+	if fd, ok := s.funcs["TrzszRelay.wrapOutput"]; ok && fd.Body != nil {
+		var storePos, goPos token.Pos
+		ast.Inspect(fd.Body, func(n ast.Node) bool {
+			if n == nil {
+				return true
+			}
+			if isStore(n) && storePos == 0 {
+				storePos = n.Pos()
+			}
+			if g, ok := n.(*ast.GoStmt); ok && goPos == 0 {
+				if sel, ok := g.Call.Fun.(*ast.SelectorExpr); ok && sel.Sel.Name == "handshake" {
+					goPos = n.Pos()
+				}
+			}
+			return true
+		})
+		if goPos == 0 {
+			die("relay.go: wrapOutput no longer starts the handshake worker with a go statement")
+		}
+		byReader = storePos != 0 && storePos < goPos
+	} else {
+		die("relay.go: function wrapOutput not found")
+	}
+	if fd, ok := s.funcs["TrzszRelay.handshake"]; ok && fd.Body != nil && len(fd.Body.List) > 0 {
+		if es, ok := fd.Body.List[0].(*ast.ExprStmt); ok && isStore(es.X) {
+			byWorker = true
+		}
+	}
+	o.raw("Definition relay_handshaking_stored_by_reader : bool := %v.\n", byReader)
+	o.raw("Definition relay_handshaking_stored_by_worker : bool := %v.\n", byWorker)
 }
 
 // roots of the relay model; the closure over same-file callees is emitted too
